@@ -79,7 +79,7 @@ func jobCPU(c *rt.Ctx, prop string) {
 	}
 }
 
-var c06Kinds = []string{"good", "wrong-msg", "R-bitflip", "S-bitflip", "key-bitflip", "S+L", "S-top-slice-valid", "small-order-key", "small-order-R", "undecodable-key", "undecodable-R", "key31", "key-nil", "sig63", "sig-nil", "bad-prehash-or-nil-msg", "mixed-order-valid"}
+var c06Kinds = []string{"good", "wrong-msg", "R-bitflip", "S-bitflip", "key-bitflip", "S+L", "S-top-slice-valid", "small-order-key", "small-order-R", "undecodable-key", "undecodable-R", "key31", "key-nil", "sig63", "sig-nil", "bad-prehash-or-nil-msg", "mixed-order-valid", "sig65-zero", "sig96-zero"}
 
 // entries that are valid signatures under ANOTHER variant / context than the batch's options
 var c06CrossKinds = []string{"signed-as-pure", "signed-as-ctx-c", "signed-as-ctx-d", "signed-as-ph", "signed-as-ph-d", "model-signed-over-63-bytes", "model-signed-over-65-bytes", "model-signed-over-0-bytes"}
@@ -197,6 +197,14 @@ func mkEntry(kind string, slot int, vs variantSpec) triple {
 		t.sig = t.sig[:63]
 	case "sig-nil":
 		t.sig = nil
+	case "sig65-zero", "sig96-zero":
+		// a valid signature followed by zero bytes: R and S read from the first 64 bytes satisfy the
+		// equation, only the length says no
+		n := 1
+		if kind == "sig96-zero" {
+			n = 32
+		}
+		t.sig = append(append([]byte{}, t.sig...), make([]byte, n)...)
 	case "bad-prehash-or-nil-msg":
 		if vs.v == ref.Ph {
 			t.msg = t.msg[:63]
